@@ -75,3 +75,177 @@ TAG_SUPERS = {
     'T0': {'T0'}, 'T1': {'T1', 'T0'}, 'T2': {'T2', 'T1', 'T0'},
     'U0': {'U0'}, 'U1': {'U1'},
 }
+
+
+# ---------------------------------------------------------------------------
+# exception shapes for the failing-callable fault (C05)
+# ---------------------------------------------------------------------------
+class E_CustomInit(Exception):
+  def __init__(self, a, b):
+    super().__init__(a, b)
+    self.a, self.b = a, b
+
+
+class E_KwOnlyInit(Exception):
+  def __init__(self, *, code):
+    super().__init__(f'code {code}')
+    self.code = code
+
+
+class E_StrOverride(Exception):
+  def __str__(self):
+    return 'custom-str-of-exception'
+
+
+class E_Slots(Exception):
+  __slots__ = ('x',)
+
+
+class E_Sub(ValueError):
+  """Subclass with extra attribute."""
+
+  def __init__(self, msg, extra=None):
+    super().__init__(msg)
+    self.extra = extra
+
+
+class B_Base(BaseException):
+  pass
+
+
+class E_NoSubclassHook(Exception):
+  def __init_subclass__(cls, **kw):
+    raise TypeError('E_NoSubclassHook cannot be subclassed')
+
+
+class _FinalMeta(type):
+  def __new__(mcs, name, bases, ns, **kw):
+    for b in bases:
+      if isinstance(b, _FinalMeta):
+        raise TypeError(f'{b.__name__} is final')
+    return super().__new__(mcs, name, bases, ns)
+
+
+class E_FinalMeta(Exception, metaclass=_FinalMeta):
+  pass
+
+
+def make_exception(shape, tag):
+  """Returns (exception instance, expectation class).
+
+  expectation: 'full' (proxy with Fiddle context required) or a degraded shape
+  name for which the code is known to re-raise the bare original.
+  """
+  m = f'boom-{tag}'
+  table = {
+      'ValueError': lambda: (ValueError(m), 'full'),
+      'KeyError': lambda: (KeyError(m), 'full'),
+      'OSError': lambda: (OSError(2, m), 'full'),
+      'UnicodeDecodeError': lambda: (
+          UnicodeDecodeError('utf-8', b'\xff' + m.encode(), 0, 1, 'bad'), 'full'),
+      'CustomInit': lambda: (E_CustomInit(m, 7), 'full'),
+      'KwOnlyInit': lambda: (E_KwOnlyInit(code=m), 'full'),
+      'StrOverride': lambda: (E_StrOverride(m), 'full'),
+      'Slots': lambda: (E_Slots(m), 'full'),
+      'Sub': lambda: (E_Sub(m, extra=3), 'full'),
+      'StopIteration': lambda: (StopIteration(m), 'full'),
+      'StopAsyncIteration': lambda: (StopAsyncIteration(m), 'full'),
+      'AssertionError': lambda: (AssertionError(m), 'full'),
+      'B_Base': lambda: (B_Base(m), 'base-exception'),
+      'SystemExit': lambda: (SystemExit(m), 'base-exception'),
+      'GeneratorExit': lambda: (GeneratorExit(m), 'base-exception'),
+      'KeyboardInterrupt': lambda: (KeyboardInterrupt(m), 'base-exception'),
+      'NoSubclassHook': lambda: (E_NoSubclassHook(m), 'unsubclassable'),
+      'FinalMeta': lambda: (E_FinalMeta(m), 'unsubclassable'),
+  }
+  return table[shape]()
+
+
+EXC_SHAPES = ['ValueError', 'KeyError', 'OSError', 'UnicodeDecodeError',
+              'CustomInit', 'KwOnlyInit', 'StrOverride', 'Slots', 'Sub',
+              'StopIteration', 'StopAsyncIteration', 'AssertionError',
+              'B_Base', 'SystemExit', 'GeneratorExit', 'KeyboardInterrupt',
+              'NoSubclassHook', 'FinalMeta']
+
+
+class HostileReprBase(BaseException):
+  pass
+
+
+import collections as _collections
+
+NT = _collections.namedtuple('NT', ['a', 'b'])
+
+
+class Hostile:
+  """Argument whose repr() fails while the diagnostic is being formatted.
+
+  mode is set per run by the machine: None (benign), 'exc', 'base'.
+  """
+  mode = None
+  fired = 0
+
+  def __repr__(self):
+    if Hostile.mode == 'exc':
+      Hostile.fired += 1
+      raise RuntimeError('hostile __repr__')
+    if Hostile.mode == 'base':
+      Hostile.fired += 1
+      raise HostileReprBase('hostile __repr__ (BaseException)')
+    return '<Hostile>'
+
+
+class TempBox:
+  """User-registered node type whose flatten manufactures temporaries.
+
+  flatten wraps every child in a fresh list / dict / tuple; unflatten unwraps
+  them again.  An identity-keyed memo that does not pin its keys will see the
+  ids of those temporaries recycled.
+  """
+
+  def __init__(self, children):
+    self.children = list(children)
+
+  def __repr__(self):
+    return f'TempBox({self.children!r})'
+
+  def __getitem__(self, i):
+    # mirrors _tempbox_flatten: a path through a TempBox goes through the
+    # wrapper that flatten puts around child i
+    c = self.children[i]
+    return [c] if i % 3 == 0 else ({'c': c} if i % 3 == 1 else (c, []))
+
+
+def _tempbox_flatten(box):
+  wrapped = []
+  for i, c in enumerate(box.children):
+    if i % 3 == 0:
+      wrapped.append([c])
+    elif i % 3 == 1:
+      wrapped.append({'c': c})
+    else:
+      wrapped.append((c, []))
+  return tuple(wrapped), len(wrapped)
+
+
+def _tempbox_unflatten(values, meta):
+  out = []
+  for i, v in enumerate(values):
+    if i % 3 == 0:
+      out.append(v[0])
+    elif i % 3 == 1:
+      out.append(v['c'])
+    else:
+      out.append(v[0])
+  return TempBox(out)
+
+
+def _register_tempbox():
+  from fiddle._src import daglish
+  daglish.register_node_traverser(
+      TempBox, flatten_fn=_tempbox_flatten, unflatten_fn=_tempbox_unflatten,
+      path_elements_fn=lambda b: tuple(daglish.Index(i)
+                                       for i in range(len(b.children))))
+
+
+_register_tempbox()
